@@ -130,6 +130,23 @@ func fGenWorld(r *rng, maxLines int, fileMode int) *fWorld {
 				sb.WriteString(pick(r, []string{"\n", "\n", "\n", "\r\n"}))
 			}
 		}
+		if r.chance(1, 3) {
+			// a host ALL of whose matching rules are $dnsrewrite rules, exceptions included (results for
+			// it are then made of rewrite rules only, so slices derived from them alias the result)
+			h := "rwonly" + fmt.Sprint(li) + ".example.net"
+			pool := []string{"||" + h + "^$dnsrewrite=1.2.3.4", "@@||" + h + "^$dnsrewrite=1.2.3.4",
+				"||" + h + "^$dnsrewrite=5.6.7.8", "||" + h + "^$dnsrewrite=NOERROR;TXT;hi", "@@||" + h + "^$dnsrewrite=NOERROR;TXT;hi",
+				"||" + h + "^$dnsrewrite=9.9.9.9,important", "@@||" + h + "^$dnsrewrite"}
+			for _, line := range subset(r, pool, 5) {
+				if sb.Len() > 0 && !strings.HasSuffix(sb.String(), "\n") {
+					sb.WriteString("\n")
+				}
+				sb.WriteString(line + "\n")
+				w.ruleTexts = append(w.ruleTexts, line)
+			}
+			w.domains = append(w.domains, h, h, h)
+			w.hostNames = append(w.hostNames, h)
+		}
 		file := fileMode == 1 || (fileMode == 2 && r.chance(1, 2))
 		w.specs = append(w.specs, fListSpec{id: ids[li], text: sb.String(), file: file})
 	}
@@ -292,6 +309,21 @@ func (w *fWorld) storage(spy *[]fRead, hostsOnly bool) *filterlist.RuleStorage {
 func fRuleKey(r rules.Rule) string {
 	if r == nil {
 		return "nil"
+	}
+	// a typed nil pointer inside the interface (e.g. a zeroed slice element of a result)
+	switch v := r.(type) {
+	case *rules.NetworkRule:
+		if v == nil {
+			return "nil"
+		}
+	case *rules.HostRule:
+		if v == nil {
+			return "nil"
+		}
+	case *rules.CosmeticRule:
+		if v == nil {
+			return "nil"
+		}
 	}
 
 	return fmt.Sprintf("%d:%s", r.GetFilterListID(), r.Text())
